@@ -4,6 +4,7 @@ go 1.16
 
 require (
 	github.com/coreos/go-semver v0.3.0
+	github.com/gogo/protobuf v1.3.1
 	github.com/pingcap/kvproto v0.0.0-20210604082642-dda0a102bc6a
 	github.com/pingcap/log v0.0.0-20210317133921-96f4fcab92a4
 	github.com/tikv/pd v0.0.0
